@@ -200,6 +200,7 @@ def _validate(ctx, grecs, trecs, rerecord):
             if again == 2:
                 ctx.violation(what + " -- deadline missed in 3 of 3 recordings of this seed", payload, name="trace_reject.json")
             else:
+                ctx.save_text("deadline_miss_trace.json", json.dumps(payload, indent=1))
                 ctx.broken("deadline miss not reproduced with the same seed (%d/3), overloaded machine? %s" % (again + 1, what))
             return
         ctx.violation(what, payload, name="trace_reject.json")
